@@ -50,6 +50,11 @@ Plain == Opt(FALSE, FALSE, FALSE, FALSE, FALSE)
 \* C19: replacement scenarios;  C09/C10: no template
 ReplSeeds == {[u |-> u, o |-> o, tpl |-> <<>>, repl |-> TRUE] : u \in Pats, o \in {Plain, [Plain EXCEPT !.word = TRUE], [Plain EXCEPT !.inv = TRUE]}}
 ReplOf(sd) == {[sd EXCEPT !.tpl = t] : t \in (IF sd.o = Plain THEN ShortTpls \cup PickTpls ELSE PickTpls)}
+\* thorough tier: every template of up to three characters, more option sets, every content of length <= 4
+MCLinesDeep == SetToSeq(SeqsUpTo({SA, SB, SSP, SEA}, 4) \cup Specials)
+ReplSeedsDeep == {[u |-> u, o |-> o, tpl |-> <<>>, repl |-> TRUE] : u \in Pats,
+                    o \in {Plain, [Plain EXCEPT !.word = TRUE], [Plain EXCEPT !.inv = TRUE], [Plain EXCEPT !.ci = TRUE], [Plain EXCEPT !.line = TRUE]}}
+ReplOfDeep(sd) == {[sd EXCEPT !.tpl = t] : t \in (IF sd.o = Plain THEN SeqsUpTo(TChars, 3) \cup PickTpls ELSE PickTpls)}
 PlainSeeds0 == {[u |-> u, o |-> o, tpl |-> <<>>, repl |-> FALSE] : u \in Pats,
                   o \in {Plain, [Plain EXCEPT !.word = TRUE], [Plain EXCEPT !.inv = TRUE], [Plain EXCEPT !.ci = TRUE],
                          [Plain EXCEPT !.line = TRUE], [Plain EXCEPT !.crlf = TRUE]}}
